@@ -220,6 +220,9 @@ func runValue(c *core.Case, e *entry, g *gen) {
 	if g.outOfRange > 0 {
 		c.Count("enum_out_of_range_values", g.outOfRange)
 	}
+	if g.secondOffsets > 0 {
+		c.Count("times_with_second_granular_offset", g.secondOffsets)
+	}
 	if g.headerVariants > 0 {
 		c.Count("slot_headers_with_case_variant_keys", g.headerVariants)
 	}
